@@ -45,11 +45,17 @@ Fixpoint evalB (prec : FB.precision) (ienv : nat -> IB.type) (e : expr) : IB.typ
 
 Definition no_env_B : nat -> IB.type := fun _ => IB.fromZ (FB.PtoP 30) 0.
 
-(* three-valued verdict on the sign of a closed expression at one precision *)
+(* the activation expressions mention ln 2 many times: it is variable 0 (every variable) of their
+   environment, enclosed once per evaluation *)
+Definition ln2_env_R : nat -> R := fun _ => ln 2.
+Definition ln2_env_B (prec : FB.precision) : nat -> IB.type :=
+  let l := IB.ln prec (IB.fromZ prec 2) in fun _ => l.
+
+(* three-valued verdict on the sign of an expression (closed, or over ln2_env_R) at one precision *)
 Inductive sgn := SPos (* proved > 0 *) | SNonneg (* proved >= 0 *) | SNeg (* proved < 0 *) | SUnknown.
 
 Definition sign_at (p : positive) (e : expr) : sgn :=
-  let i := evalB (FB.PtoP p) no_env_B e in
+  let i := evalB (FB.PtoP p) (ln2_env_B (FB.PtoP p)) e in
   match IB.sign_strict i with
   | Xgt => SPos
   | Xlt => SNeg
